@@ -145,15 +145,30 @@ func build(aged bool) *scen {
 	})
 	tx("gov:del-planB", func(s *scen) chain.TxResult { return s.w.DelPlanGov("planb") })
 	blk("slash(val,1/2)+block", func(s *scen) string {
-		// the slashing module only slashes validators that are not unbonded (evidence against an unbonded
-		// validator is ignored); after a slash the validator may have lost its power and been unbonded
-		if v, ok := s.w.Keepers.StakingKeeper.GetValidator(s.w.Ctx, sdk.ValAddress(s.val.Addr)); !ok || v.IsUnbonded() {
+		// modelled on what the slashing (downtime) and evidence (double sign) modules do in BeginBlock: a validator that
+		// is not unbonded and not jailed loses a fraction of its current stake and is jailed; a jailed validator must be
+		// unjailed by its operator before it can be slashed again. (A first version burned a fixed 500000 per slash
+		// whatever the validator still had and never jailed it: two slashes emptied the validator completely, which the
+		// real modules cannot do with a fraction below 1 - that was a false alarm of the harness.)
+		valAddr := sdk.ValAddress(s.val.Addr)
+		if v, ok := s.w.Keepers.StakingKeeper.GetValidator(s.w.Ctx, valAddr); !ok || v.IsUnbonded() || v.IsJailed() || v.Tokens.LT(sdk.NewInt(2)) {
 			return "__illegal__"
 		}
 		s.w.BeginBlockInject = func(ctx sdk.Context) {
-			s.w.Keepers.SlashingKeeper.Slash(ctx, sdk.GetConsAddress(s.val.PubKey), sdk.NewDecWithPrec(5, 1), 1, ctx.BlockHeight()-1)
+			v, ok := s.w.Keepers.StakingKeeper.GetValidator(ctx, valAddr)
+			if !ok || v.IsUnbonded() || v.IsJailed() || v.Tokens.LT(sdk.NewInt(2)) {
+				return // evidence against an unbonded validator is ignored
+			}
+			// half of the current tokens, expressed as a fraction of consensus power 1 (= 10^6 tokens)
+			fraction := sdk.NewDecFromInt(v.Tokens.QuoRaw(2)).QuoInt64(1000000)
+			cons := sdk.GetConsAddress(s.val.PubKey)
+			s.w.Keepers.SlashingKeeper.Slash(ctx, cons, fraction, 1, ctx.BlockHeight()-1)
+			s.w.Keepers.SlashingKeeper.Jail(ctx, cons)
 		}
 		return s.w.NextBlock(chain.BlockDt)
+	})
+	tx("unjail(val)", func(s *scen) chain.TxResult {
+		return s.w.Tx(func() error { return s.w.Keepers.SlashingKeeper.Unjail(s.w.Ctx, sdk.ValAddress(s.val.Addr)) })
 	})
 	blk("+1block", func(s *scen) string { return s.w.NextBlock(chain.BlockDt) })
 	blk("next-epoch", func(s *scen) string { return s.w.AdvanceToNextEpoch(chain.BlockDt) })
@@ -356,6 +371,15 @@ func (s *scen) Apply(op int) bfs.Step {
 		}
 		obs = "block"
 	}
+	if os.Getenv("VERIF_DEBUG") != "" {
+		ds, _ := w.Keepers.Dualstaking.GetAllDelegations(w.Ctx)
+		for _, d := range ds {
+			fmt.Fprintf(os.Stderr, "  [deleg] %s -> %s : %s (credit %s @%d)\n", d.Delegator, d.Provider, d.Amount, d.Credit, d.CreditTimestamp)
+		}
+		for _, v := range w.Keepers.StakingKeeper.GetAllValidators(w.Ctx) {
+			fmt.Fprintf(os.Stderr, "  [val] %s tokens=%s shares=%s status=%s jailed=%v\n", v.OperatorAddress, v.Tokens, v.DelegatorShares, v.Status, v.Jailed)
+		}
+	}
 	after := w.Supply()
 	if after.GT(before) {
 		viol = append(viol, ev.Violation{Property: "C09", Key: "supply-increased:" + o.name, What: fmt.Sprintf("total supply of the bond denom rose from %s to %s in %s", before, after, o.name)})
@@ -406,7 +430,7 @@ func runCheck(property string) func(run *ev.Run) {
 			}
 		}
 		run.Set("exhaustive", exh)
-		run.Set("bound", fmt.Sprintf("all histories up to depth %d over 22 ops (buy/advance-buy/auto-renew/12-month subscriptions, IPRPC funding 1-2 months, relay payments on two specs, delegate/unbond/claim, unstake, plan new version/delete, validator slash, +1 block, next epoch, past memory, +1 day, +31 days) from a fresh and an aged fixture, horizon 100 days", depth))
+		run.Set("bound", fmt.Sprintf("all histories up to depth %d over 23 ops (buy/advance-buy/auto-renew/12-month subscriptions, IPRPC funding 1-2 months, relay payments on two specs, delegate/unbond/claim, unstake, plan new version/delete, validator slash of half its stake with jailing, unjail, +1 block, next epoch, past memory, +1 day, +31 days) from a fresh and an aged fixture, horizon 100 days", depth))
 		run.Assume("mock bank/account keeper of testutil/keeper (MintCoins/BurnCoins are visible in its supply); atomic txs emulated as in baseapp; begin/end blockers in app.go order; distribution/slashing/evidence begin-blockers of cosmos are not run (a slash is injected at their position)")
 	}
 }
